@@ -220,7 +220,12 @@ def tokens(shapes, prefix="t", **kw):
     """One child per shape: a Tok, or for shape "N" a real user Symbol (the bare-name child kind)."""
     out = []
     for i, s in enumerate(shapes):
-        if s == "N":
+        if s == "L":      # a variable bound by an enclosing `let` (hv.rules wraps the form)
+            sym = S(f"lv{prefix}{i}")
+            sym.start_line = sym.end_line = i + 2
+            sym.start_column = sym.end_column = 1
+            out.append(sym)
+        elif s == "N":
             sym = S(f"u{prefix}{i}")
             sym.start_line = sym.end_line = i + 2
             sym.start_column = sym.end_column = 1
